@@ -37,7 +37,7 @@ for p in props:
         na.append({"property_id":p['id'],"reason":NA.get(p['id'],"check not built yet in this session (work in progress)")})
 m={"version":1,
  "setup_cmd":"cd /verif/engine && GOFLAGS=-mod=mod GOPROXY=off GOSUMDB=off GOTOOLCHAIN=local go build -o /verif/bin/symgo ./cmd/symgo",
- "hooks":{"guard":"verif","enable":"harness files (//go:build verif) are injected with go/packages Overlay and `go test -tags verif -overlay`; no source hooks are committed to /repo","baseline_off_cmd":"cd /repo && go test -mod=mod -vet=off -count=1 -timeout 25m ./...","source_commits":[],"add_only":True},
+ "hooks":{"guard":"verif","enable":"harness files (//go:build verif) are injected with go/packages Overlay (engine) and `go test -tags verif -overlay` (native replay). Source hooks committed to /repo: verifsync.go (//go:build !verif: no-op verifSync), verifsync_verif.go (//go:build verif: VerifSyncHook) and add-only calls `verifSync(\"<point>\", vm)` in vm.go (Run, Abort, Invoker.acquire/Invoke, vmPool.acquire/release) and eval.go (Eval.run); used by C09 only","baseline_off_cmd":"cd /repo && go test -mod=mod -vet=off -count=1 -timeout 25m ./...","source_commits":["a3f5d17","dcd3227"],"add_only":True},
  "engines":[{"name":"symgo","path":"/verif/engine","serves_properties":sorted(built),"kind_free_text":"symbolic executor for Go SSA (fork of x/tools go/ssa/interp v0.29.0) with SMT-LIB2 back end (z3 4.8.12), solver-guided path exploration by deterministic re-execution, monitors (escaped panic, allocation, frozen objects), native replay of witnesses"}],
  "checks":checks,
  "not_applicable":na,
